@@ -219,6 +219,22 @@ def build_recipe(case, ctx):
         U.update([a, b])
         cells.append((a, "licenseref", "alone", "absent", "toml-aggregate"))
         cells.append((b, "licenseref", "alone", "absent", "toml-override"))
+    if case["k"] % 4 == 1:
+        # an identifier whose only use is a snippet deep inside a big file, the SnippetBegin marker lying across a 4 KiB / 64 KiB
+        # offset: used, and its text therefore not unused
+        sn = f"LicenseRef-snippet-only-{case['k']}"
+        boundary = [65536, 4096 * 5, 131072][(case["k"] // 4) % 3]
+        cut = 3 + (case["k"] // 12) % 15
+        fill = "x = 'filler filler filler filler filler filler filler'\n"
+        lead = fill * ((boundary - cut - 40) // len(fill))
+        lead += "#" + "p" * (boundary - cut - len(lead) - 2) + "\n"
+        text = lead + f"# SPDX-SnippetBegin\n# SPDX-SnippetCopyrightText: 2006 Snippet Holder\n# SPDX-License-Identifier: {sn}\n# SPDX-SnippetEnd\n" + fill * 3
+        assert boundary - 20 < text.index("SPDX-SnippetBegin") < boundary
+        extra.append({"path": "big_snippet.py", "text": text})
+        licenses.append({"name": f"{sn}.txt", "id": sn})
+        P[sn] = f"LICENSES/{sn}.txt"
+        U.add(sn)
+        cells.append((sn, "licenseref", "snippet-far-down", "txt", "header"))
     if "LicenseRef-helper" in U:
         licenses.append({"name": "LicenseRef-helper.txt", "id": "LicenseRef-helper"})
         P["LicenseRef-helper"] = "LICENSES/LicenseRef-helper.txt"
